@@ -30,7 +30,7 @@ Deliver == /\ pos < Len(R.obs)
            /\ LET o == R.obs[pos + 1] IN
               /\ maxLook' = MaxNat(maxLook, o[2] - o[1])
               /\ okOrder' = (okOrder /\ o[2] >= o[1] /\ o[2] <= R.n
-                             /\ (pos > 0 => (R.obs[pos][1] < o[1] /\ R.obs[pos][2] <= o[2])))
+                             /\ (pos > 0 => (R.obs[pos][1] <= o[1] /\ R.obs[pos][2] <= o[2])))      \* (<=: a last observation after the consumer stopped repeats the row)
            /\ UNCHANGED t
 Next == Deliver
 Spec == Init /\ [][Next]_vars
